@@ -27,7 +27,7 @@ type inputPool struct {
 	lexTxt []string
 }
 
-func newPool(gr *corpus.Grammar, r *prng.R, hasLexer bool) *inputPool {
+func newPool(gr *corpus.Grammar, r *prng.R, hasLexer bool, veryDeep bool) *inputPool {
 	p := &inputPool{gr: gr, lexOK: hasLexer}
 	if gr.HasSyntax() {
 		for i := 0; i < 10; i++ {
@@ -38,6 +38,9 @@ func newPool(gr *corpus.Grammar, r *prng.R, hasLexer bool) *inputPool {
 		}
 		// a stack far beyond any plausible threshold (hundreds to thousands of entries)
 		for _, d := range []int{130, 1100 + r.Intn(1500)} {
+			if !veryDeep && d > 200 {
+				continue
+			}
 			if s := gr.DeriveDeep(r.Fork("vd"), d); s != nil {
 				p.deep = append(p.deep, s)
 			}
@@ -267,7 +270,7 @@ func RunC16(c *Ctx) error {
 	var batches []*batch
 	for _, drv := range drvs.List {
 		r := prng.Sub(c.Seed, "c16/"+drv.Grammar.ID, 0)
-		pool := newPool(drv.Grammar, r, drv.HasLexer)
+		pool := newPool(drv.Grammar, r, drv.HasLexer, true)
 		var jobs []harness.Job
 		for _, v := range drv.Variants {
 			for h := 0; h < nHist; h++ {
